@@ -130,6 +130,15 @@ impl VM {
 	}
 }
 
+/// Same JSON layout as the `jrsonnet` executable prints by default (3 spaces of indentation)
+fn default_json_format() -> JsonFormat<'static> {
+	JsonFormat::cli(
+		3,
+		#[cfg(feature = "exp-preserve-order")]
+		false,
+	)
+}
+
 /// Creates a new Jsonnet virtual machine.
 #[no_mangle]
 #[allow(clippy::box_default)]
@@ -141,7 +150,7 @@ pub extern "C" fn jsonnet_make() -> *mut VM {
 	let state = state.build();
 	Box::into_raw(Box::new(VM {
 		state,
-		manifest_format: Box::new(JsonFormat::default()),
+		manifest_format: Box::new(default_json_format()),
 		trace_format: Box::new(CompactFormat::default()),
 		tla_args: FxHashMap::new(),
 	}))
@@ -176,7 +185,7 @@ pub extern "C" fn jsonnet_gc_growth_trigger(_vm: &VM, _v: c_double) {}
 #[no_mangle]
 pub extern "C" fn jsonnet_string_output(vm: &mut VM, v: c_int) {
 	vm.manifest_format = match v {
-		0 => Box::new(JsonFormat::default()),
+		0 => Box::new(default_json_format()),
 		1 => Box::new(ToStringFormat),
 		_ => panic!("incorrect output format"),
 	};
